@@ -258,4 +258,7 @@ UsableFromEnv(o)  == o.env.accepted /\ o.env.effective
 UsabilityFindings(o) ==
   (IF UsableFromFile(o) # UsableFromEnv(o) THEN {"file-env-usability-differs"} ELSE {})
   \cup (IF o.schema /\ ~UsableFromEnv(o) /\ ~UsableFromFile(o) THEN {"schema-accepts-unsupported"} ELSE {})
+  \* a file is treated alike whether it is named to the loader or found by its lookup
+  \cup (IF "lookup" \in DOMAIN o /\ (o.lookup.accepted # o.file.accepted \/ o.lookup.effective # o.file.effective)
+        THEN {"file-found-by-lookup-treated-differently"} ELSE {})
 =============================================================================
